@@ -115,7 +115,8 @@ def edge_types(schema: dict) -> set:
 
 class Sampler:
     def __init__(self, seed: int, profile: str = "mixed", ms_timestamps: bool = True,
-                 wire_domain: bool = False, edge: int | None = None):
+                 wire_domain: bool = False, edge: int | None = None, big_lengths: list | None = None):
+        self.big_lengths = big_lengths      # overrides BIG_LENGTHS for bytes / records payloads of the big profile
         self.edge = edge            # index into EDGES: fields of a narrow-domain type take that edge value
         self.r = random.Random(seed)
         self.profile = profile
@@ -184,7 +185,7 @@ class Sampler:
     def _blob(self) -> bytes:
         r = self.r
         if self._big_roll():
-            return self._filled(r.choice(BIG_LENGTHS), False)
+            return self._filled(r.choice(self.big_lengths or BIG_LENGTHS), False)
         n = r.choice(STRING_LENGTHS[3:] if self.profile == "max" else STRING_LENGTHS)
         return bytes(r.randrange(256) for _ in range(n))
 
